@@ -816,7 +816,7 @@ http://localhost:4318/v1/metrics
                               ],
                               "startTimeUnixNano": 1716889540249854000,
                               "timeUnixNano": 1716889540249854000,
-                              "value": 42
+                              "asInt": 42
                            }
                         ],
                         "aggregationTemporality": 2,
@@ -888,7 +888,7 @@ http://localhost:4318/v1/metrics
                               ],
                               "startTimeUnixNano": 1716889891391075000,
                               "timeUnixNano": 1716889891391075000,
-                              "value": -8
+                              "asInt": -8
                            }
                         ],
                         "aggregationTemporality": 2,
@@ -960,7 +960,7 @@ http://localhost:4318/v1/metrics
                               ],
                               "startTimeUnixNano": 1716890230856380000,
                               "timeUnixNano": 1716890230856380000,
-                              "value": 615
+                              "asInt": 615
                            }
                         ]
                      }
@@ -1039,7 +1039,7 @@ http://localhost:4318/v1/metrics
                               ],
                               "startTimeUnixNano": 1716890420000000000,
                               "timeUnixNano": 1716890425000000000,
-                              "value": 5
+                              "asInt": 5
                            }
                         ],
                         "aggregationTemporality": 1,
